@@ -88,6 +88,10 @@ pub struct Case {
     /// Large entries make the driver's read buffer grow and be re-used / re-allocated.
     #[serde(default)]
     pub pads: Vec<u32>,
+    /// (after how many PDUs, for how many PDUs) the client's socket cannot be written to: requests issued
+    /// meanwhile are stuck in the driver while responses for other operations keep arriving
+    #[serde(default)]
+    pub stall: Option<(u16, u8)>,
 }
 
 pub fn start_id() -> BoxedStrategy<i32> {
@@ -116,6 +120,8 @@ fn strat(_: &Ctx) -> BoxedStrategy<Case> {
         3 => items().prop_map(OpKind::SearchEntriesOnly),
         2 => (items(), 0u8..4).prop_map(|(i, k)| OpKind::SearchDropped(i, k)),
     ];
+    // rarely: a dropped stream with a long tail of late entries (130-400 responses nobody waits for, in a row)
+    let kind = prop_oneof![150 => kind, 1 => (130usize..400, 0u8..3).prop_map(|(n, k)| OpKind::SearchDropped(vec![Item::Entry; n], k))];
     let op = (kind, 0u8..4, 0u8..4).prop_map(|(kind, handle, yields)| OpSpec { kind, handle, yields, lag: false });
     // rarely: one more search with 1100-2500 entries and a lagging consumer, on a handle of its own
     let lagging = proptest::option::weighted(0.006, (1100usize..2500, any::<bool>())).prop_map(|o| o.map(|(n, direct)| OpSpec { kind: if direct { OpKind::SearchDirect(vec![Item::Entry; n]) } else { OpKind::SearchEntriesOnly(vec![Item::Entry; n]) }, handle: 200, yields: 0, lag: true }));
@@ -130,8 +136,8 @@ fn strat(_: &Ctx) -> BoxedStrategy<Case> {
             ops.insert(at, l);
         }
         ops
-    }), vec(any::<u16>(), 100), vec(any::<bool>(), 1..6), unsol, chunk_plan(), any::<u64>(), start_id(), prop_oneof![2 => Just(vec![]), 1 => vec(prop_oneof![2 => Just(0u8), 1 => 1u8..8], 12)], prop_oneof![5 => Just(vec![]), 1 => vec(prop_oneof![2 => Just(0u32), 1 => proptest::sample::select(&[9_000u32, 20_000, 41_000, 70_000, 100_000, 150_000, 300_000][..])], 1..5)])
-        .prop_map(|(ops, ranks, glue, unsol, (chunks, yields), sched, start_id, rewinds, pads)| {
+    }), vec(any::<u16>(), 100), vec(any::<bool>(), 1..6), unsol, chunk_plan(), any::<u64>(), start_id(), prop_oneof![2 => Just(vec![]), 1 => vec(prop_oneof![2 => Just(0u8), 1 => 1u8..8], 12)], prop_oneof![5 => Just(vec![]), 1 => vec(prop_oneof![2 => Just(0u32), 1 => proptest::sample::select(&[9_000u32, 20_000, 41_000, 70_000, 100_000, 150_000, 300_000][..])], 1..5)], proptest::option::weighted(0.2, (0u16..12, 1u8..8)))
+        .prop_map(|(ops, ranks, glue, unsol, (chunks, yields), sched, start_id, rewinds, pads, stall)| {
             // a stream dropped without finish() releases its id while the server may still send items under
             // it; re-using that id is then ambiguous by protocol, so such cases keep the counter monotonic
             // (the same holds for a server that sends one more PDU under the id of a completed operation)
@@ -139,7 +145,7 @@ fn strat(_: &Ctx) -> BoxedStrategy<Case> {
             let rewinds = if ambiguous { vec![] } else { rewinds };
             // big entries with byte-sized reads would cost seconds per case: scale the read plan up
             let chunks = if pads.iter().any(|p| *p > 0) || ops.iter().any(|o: &OpSpec| o.lag) { chunks.iter().map(|c: &usize| c.saturating_mul(3001)).collect() } else { chunks };
-            Case { ops, ranks, glue, unsol, chunks, yields, sched, start_id, rewinds, pads }
+            Case { ops, ranks, glue, unsol, chunks, yields, sched, start_id, rewinds, pads, stall }
         })
         .boxed()
 }
@@ -289,7 +295,20 @@ async fn server(wire: sim::Wire, case: Case) -> ServerLog {
     let mut unsol: Vec<(usize, UnsolKind)> = case.unsol.iter().map(|u| (crate::runner::pick_idx(u.before, total + 1), u.kind)).collect();
     unsol.sort_by_key(|u| u.0);
     let mut never = 1_000_000i64;
+    let mut blocked = false;
+    let mut stall_over = false;
     loop {
+        if let (Some((at, len)), false) = (case.stall, stall_over) {
+            let (at, len) = (at as usize, len as usize);
+            if !blocked && sent_count >= at && sent_count < at + len {
+                wire.block_writes(true);
+                blocked = true;
+            } else if blocked && sent_count >= at + len {
+                wire.block_writes(false);
+                blocked = false;
+                stall_over = true;
+            }
+        }
         quiesce().await;
         while let Some(r) = wire.try_recv() {
             match r {
@@ -365,6 +384,12 @@ async fn server(wire: sim::Wire, case: Case) -> ServerLog {
             wire.push(&batch);
         }
         if progressed {
+            stalls = 0;
+        } else if blocked {
+            // nothing more can be sent until the stuck requests get through
+            wire.block_writes(false);
+            blocked = false;
+            stall_over = true;
             stalls = 0;
         } else {
             stalls += 1;
@@ -537,6 +562,12 @@ pub fn check(case: &Case, obs: &mut Obs) -> Result<(), Fail> {
     if case.chunks == vec![1] {
         obs.label("1-byte-reads");
     }
+    if case.stall.is_some() {
+        obs.label("write-stall-window");
+    }
+    if case.ops.iter().any(|o| matches!(&o.kind, OpKind::SearchDropped(i, _) if i.len() >= 130)) {
+        obs.label("late-tail>=130");
+    }
     if case.pads.iter().any(|p| *p > 16_384) {
         obs.label("entries>16KiB");
     }
@@ -665,7 +696,7 @@ pub fn property() -> Property {
     Property {
         id: "C01",
         level: "exploration",
-        rule: "generated histories on the simulated connection: 1-12 operations (7 single-result kinds, direct and EntriesOnly streaming searches with 0-6 items from entry/reference/intermediate, and streams the caller drops without finish() after k items so that the rest of their traffic arrives late; in 0.6% of the cases one more search with 1100-2500 entries whose consumer reads nothing until every other operation has completed) on 1-4 cloned handles with start delays; a generated global merge order of all response PDUs (any interleaving preserving per-operation order; PDUs optionally glued into one read), 0-4 unsolicited PDUs (id 0, never-issued ids with result/entry/done payloads, extra results/entries for completed ids) at generated positions, a read plan (1-byte, random chunk sizes, forced yields between chunks) and a scheduler seed for select! branch order. Oracle: every operation's observed token sequence equals what the server sent under that operation's own wire id (last_id), nobody sees an unsolicited token, driver ends cleanly. The id counter is positioned at generated starts so that message ids need 1-4 content octets. Lane alias: a response whose negative message id has the same content octets as a live operation's id (read unsigned) must never reach that operation. Non-trivial: >=2 operations outstanding at once AND (an inversion between request and completion order, or entries of >=2 searches interleaved, or an unsolicited PDU between two PDUs of a live operation). Distinct = hash of (op kinds+handles, send order, chunk plan).",
+        rule: "generated histories on the simulated connection: 1-12 operations (7 single-result kinds, direct and EntriesOnly streaming searches with 0-6 items from entry/reference/intermediate, and streams the caller drops without finish() after k items so that the rest of their traffic arrives late; in 20% of the cases a window of 1-7 PDUs during which the client's socket cannot be written to (requests pile up in the driver while responses arrive); rarely a dropped stream with a tail of 130-400 late entries; in 0.6% of the cases one more search with 1100-2500 entries whose consumer reads nothing until every other operation has completed) on 1-4 cloned handles with start delays; a generated global merge order of all response PDUs (any interleaving preserving per-operation order; PDUs optionally glued into one read), 0-4 unsolicited PDUs (id 0, never-issued ids with result/entry/done payloads, extra results/entries for completed ids) at generated positions, a read plan (1-byte, random chunk sizes, forced yields between chunks) and a scheduler seed for select! branch order. Oracle: every operation's observed token sequence equals what the server sent under that operation's own wire id (last_id), nobody sees an unsolicited token, driver ends cleanly. The id counter is positioned at generated starts so that message ids need 1-4 content octets. Lane alias: a response whose negative message id has the same content octets as a live operation's id (read unsigned) must never reach that operation. Non-trivial: >=2 operations outstanding at once AND (an inversion between request and completion order, or entries of >=2 searches interleaved, or an unsolicited PDU between two PDUs of a live operation). Distinct = hash of (op kinds+handles, send order, chunk plan).",
         assumptions: &["tokio paused clock + RngSeed (tokio_unstable) make the history a function of the case", "late PDUs for completed ids are only scripted while ids cannot have been re-issued (no wrap-around within 12 operations)"],
         lanes: vec![
             Box::new(PLane { name: "routing", cases: |t| t.pick(2_500, 40_000), strat, check }),
